@@ -112,13 +112,13 @@ fn pacing_of(p: &PacingSpec) -> Pacing {
 
 /// Initial pacing of every harness arena (mirrored by the Lean driver's handling of `new`).
 pub const P0: PacingSpec = PacingSpec {
-    sleep: Dy { num: 1, shift: 1 },
+    sleep: Dy { num: 1, shift: 1, den: 1 },
     min_sleep: 4,
-    mark: Dy { num: 1, shift: 3 },
-    trace: Dy { num: 3, shift: 3 },
-    keep: Dy { num: 1, shift: 4 },
-    drop: Dy { num: 1, shift: 2 },
-    free: Dy { num: 1, shift: 2 },
+    mark: Dy { num: 1, shift: 3, den: 1 },
+    trace: Dy { num: 3, shift: 3, den: 1 },
+    keep: Dy { num: 1, shift: 4, den: 1 },
+    drop: Dy { num: 1, shift: 2, den: 1 },
+    free: Dy { num: 1, shift: 2, den: 1 },
 };
 
 fn tag(ai: usize, id: u32) -> u64 {
